@@ -51,6 +51,7 @@ type PushPullHandler struct {
 	ctx      iface.OrdaContext
 	managers *managers.Managers
 	lock     utils.Lock
+	locked   bool
 
 	casePushPull pushPullCase
 	initialCP    *model.CheckPoint
@@ -137,7 +138,9 @@ func (its *PushPullHandler) finalize() {
 		// the caller waits on retCh and the next request on the lock: answer with an error and unlock
 		its.err = errors.PushPullAbortionOfServer.New(its.ctx.L(), fmt.Sprintf("panic: %v", r))
 	}
-	defer its.lock.Unlock()
+	if its.locked {
+		defer its.lock.Unlock()
+	}
 	if its.err == nil {
 		its.ctx.L().Infof("finish with CP %v -> %v and pulled ops: %d",
 			its.initialCP.ToString(), its.currentCP.ToString(), len(its.resPushPullPack.Operations))
@@ -185,11 +188,16 @@ func (its *PushPullHandler) logInitialConditions() {
 
 func (its *PushPullHandler) process(retCh chan *model.PushPullPack) {
 
-	its.lock.TryLock()
+	its.locked = its.lock.TryLock()
 
 	defer its.finalize()
 
 	if its.err = its.initialize(retCh); its.err != nil {
+		return
+	}
+
+	if !its.locked { // do not touch the datatype without its lock, and do not release a lock that is not ours
+		its.err = errors.PushPullAbortionOfServer.New(its.ctx.L(), "fail to lock "+its.getLockKey())
 		return
 	}
 
